@@ -114,6 +114,13 @@ def run(ctx):
         ctxmode = rng.random() < 0.35
         pkeys = [k for k in variants[0]['data'] if k != 'tasks']
         ctxs = {}
+        coincide = rng.choice([(1, '1'), (True, 'True'), (None, 'None'), ([1], '[1]'), (1.5, '1.5')]) if ctxmode and rng.random() < 0.4 else None
+        # (… overriding a parameter that takes part in persistence, all members under one namespace)
+        eff = [p.get('nic') or p['name'] for c in spec['classes'].values() for p in c['params']
+               if not p.get('ignore') and not p.get('dtype') and (p.get('nic') or p['name']) in pkeys]
+        if coincide and eff:
+            pkeys = [eff[0]] + [k for k in pkeys if k != eff[0]]
+            mode = 0.0
         for v in variants:
             if mode < 0.7:
                 v['ns'] = common
@@ -121,6 +128,9 @@ def run(ctx):
             spec['files']['main_' + v['file']] = {'uses': ['@cfg/' + src + (f' as {v["ns"]}' if v['ns'] else '')]}
             if ctxmode and pkeys and rng.random() < 0.8:
                 cdict = {rng.choice(pkeys): gen.gen_value(rng, 1, 2, gen.SAFE, gen.SAFE)}
+                if coincide:
+                    # contexts of different members whose NAMES coincide (`dict_context(k:v)` renders 1 and '1' alike) although the values differ
+                    cdict = {pkeys[0]: coincide[len(ctxs) % 2]}
                 if v['ns'] and rng.random() < 0.4:
                     cdict = {'for_namespaces': {v['ns']: cdict}}
                 ctxs['main_' + v['file']] = cdict
@@ -128,9 +138,11 @@ def run(ctx):
         b.module()
         mains = ['main_' + v['file'] for v in variants]
         reqs.append(builder.encode(spec, b, mains=[(m, ctxs.get(m)) for m in mains]))
-        metas.append((spec, variants, mains, b, i, ctxs))
+        metas.append((spec, variants, mains, b, i, {**ctxs, '_coincide': bool(coincide)} if coincide else ctxs))
     outs = ctx.model.many(reqs)
     for (spec, variants, mains, b, i, ctxs), mo in zip(metas, outs):
+        if ctxs.pop('_coincide', False):
+            ctx.count('members-by-context:coinciding-names')
         case = {'module': spec['module'], 'variants': [{'file': v['file'], 'ns': v['ns']} for v in variants], 'contexts': ctxs}
         ctx.count('members-by-context' if ctxs else 'members-by-file')
         full_case = {**case, 'spec': spec}
@@ -317,8 +329,44 @@ def run(ctx):
             a = {kk: vv for kk, vv in a.items() if not kk.startswith('_')}
             if a != m_:
                 ctx.diverge('multichain:force-history', case_, {'op_index': k, 'impl': a}, {'model': m_}); break
+    name_mode_same_file_name(ctx, root)
     # the recorded K6 witness
     k6_witness(ctx, root)
+
+
+def name_mode_same_file_name(ctx, root):
+    """name mode: member pipelines that use config files with the SAME file name in different directories (run_a/model.json,
+    run_b/model.json) are different configs: every member chain has the parameter values of the standalone chain of its config
+    (implementation-level oracle; `BuildNM`: the registry key is the config's whole path, not its file name)"""
+    from taskchain import MultiChain
+    for k in range(ctx.n(6, 40)):
+        rng = ctx.rng('nm-same-name', k)
+        vals = rng.sample([1, 2, 'a', [1], {'k': 2}, None], 2)
+        spec = {'classes': {'K0': {'name': 'up', 'group': rng.choice(['', 'g']), 'params': [{'name': 'x'}], 'inputs': [], 'kind': 'json', 'run_args': ['x']},
+                            'K1': {'name': 'down', 'group': '', 'params': [{'name': 'y', 'default': 0}], 'inputs': [{'by': 'class', 'ref': 'K0'}], 'kind': 'json',
+                                   'run_args': ['y'], 'pull': [], 'in_kinds': {}}},
+                'files': {'run_a/model.json': {'tasks': ['K0', 'K1'], 'x': vals[0]}, 'run_b/model.json': {'tasks': ['K0', 'K1'], 'x': vals[1], 'y': 5},
+                          'm1.json': {'uses': ['@cfg/run_a/model.json' + rng.choice(['', ' as n'])]},
+                          'm2.json': {'uses': ['@cfg/run_b/model.json' + rng.choice(['', ' as n'])]}}, 'main': 'm1.json'}
+        b = pl.materialize(spec, root / f'nms{k}', modname=gen.fresh_modname())
+        b.module()
+        case = {'probe': 'name mode, same file name in two directories', 'values': vals, 'files': spec['files']}
+        ctx.case(case); ctx.count('name-mode-same-file-name')
+        try:
+            mc = MultiChain([pl.make_config(b, root / f'nmsd{k}', main=m) for m in ('m1.json', 'm2.json')], parameter_mode=False)
+        except Exception as e:      # noqa
+            ctx.fail('a name-mode MultiChain over two different configs could not be built', case, f'{type(e).__name__}: {e}'[:200])
+            b.cleanup_module(); continue
+        for m in ('m1.json', 'm2.json'):
+            st, err = pl.build(b, root / f'nmss{k}', main=m, parameter_mode=False)
+            ch = mc[pl.make_config(b, root / f'nmsd{k}', main=m).name]
+            a = {n: {p.name: pl.to_model(p._value) for p in t.parameters.values()} for n, t in ch.tasks.items()}
+            s_ = {n: {p.name: pl.to_model(p._value) for p in t.parameters.values()} for n, t in st.tasks.items()}
+            if a != s_:
+                ctx.fail('a member chain of a name-mode MultiChain has other parameter values than the standalone chain of its config', case,
+                         {'member': m, 'member_chain': a, 'standalone': s_})
+                break
+        b.cleanup_module()
 
 
 def k6_witness(ctx, root):
